@@ -42,7 +42,7 @@ def run(chk):
     # ---- generated programs x 4 combos x budgets
     n = 700 if quick else 7000
     budgets = [2, 3, 10]
-    progs = [asm_gen.gen_prog(rng, size_static=rng.chance(0.3), collide=rng.chance(0.4), boundary=rng.chance(0.2)) for _ in range(n)]
+    progs = [asm_gen.gen_shift_prog(rng) if rng.chance(0.15) else asm_gen.gen_prog(rng, size_static=rng.chance(0.3), collide=rng.chance(0.4), boundary=rng.chance(0.2)) for _ in range(n)]
     icases = []
     for p in progs:
         t = p.text()
